@@ -177,6 +177,12 @@ def departures (size : Int → Nat) (rate : τ) : Option τ → τ → List (τ 
     let d := start + txDelay size rate id
     (id, d) :: departures size rate (some d) a rest
 
+/-- the instant of arrival `k` (0-based) of a source that is at instant `t`: `t` plus the first `k + 1` gaps -/
+def arrivalAt (t : τ) : List (τ × Int) → Nat → τ
+  | [], _ => t
+  | (gap, _) :: _, 0 => t + gap
+  | (gap, _) :: rest, k + 1 => arrivalAt (t + gap) rest k
+
 /-- the final state of `run()` if it returned, else `none` -/
 def finalState (r : RunResult τ (PSt τ)) : Option (KState τ (PSt τ)) :=
   match r with
